@@ -178,17 +178,25 @@ def monitors(case: dict, r: dict, ref: dict | None) -> list[tuple[str, str]]:
             if aborted_now and not (_field(line, "act") == "0" and _field(line, "loop") == "-" and _field(line, "idle") != "-"):
                 out.append(("C36/released_state_wrong", f"after the release at t={e['t']}: active={_field(line, 'act')} loop={_field(line, 'loop')} idle_since={_field(line, 'idle')} (expected inactive, no loop, marked idle)"))
     reloaders: set[int] = set()
+    rclear_pos: dict[int, int] = {}
     for e in ev:
         if e["ev"] == "op":
             kind, _, arg = e["op"].partition("|")
             if kind == "sstart":
                 reloaders.add(int(arg))
+            if kind == "srclear":
+                rclear_pos[int(arg)] = pos[id(e)]
+                line = impl[e["idx"]]
+                if not (_field(line, "act") == "1" and _field(line, "idle") == "-"):
+                    out.append(("C36/reload_state_wrong", f"after sender {arg} reloaded the run and cleared idle_since: active={_field(line, 'act')} idle_since={_field(line, 'idle')}"))
             if kind == "sdeliver" and int(arg) in reloaders and "error" not in e:
                 line = impl[e["idx"]]
-                mb = _field(line, "loop")
-                if not (_field(line, "act") == "1" and _field(line, "idle") == "-" and f"mb:{arg}" in mb.replace(",", " mb:").replace("mb: mb:", "mb:") or
-                        (_field(line, "act") == "1" and _field(line, "idle") == "-" and arg in re.sub(r".*/mb:([^/]*)/.*", r"\1", mb).split(","))):
-                    out.append(("C36/reload_state_wrong", f"after sender {arg} reloaded the run: active={_field(line, 'act')} idle_since={_field(line, 'idle')} loop={mb}"))
+                mb = re.sub(r".*/mb:([^/]*)/.*", r"\1", _field(line, "loop")).split(",")
+                # an idle announcement of the new loop between the clear and the delivery (store suspension) may have set idle_since again
+                announced_between = any(p["ev"] == "idle_published" and rclear_pos.get(int(arg), 10**9) < pos[id(p)] < pos[id(e)] for p in pubs)
+                ok = _field(line, "act") == "1" and arg in mb and (_field(line, "idle") == "-" or announced_between)
+                if not ok:
+                    out.append(("C36/reload_state_wrong", f"after sender {arg} reloaded the run and delivered: active={_field(line, 'act')} idle_since={_field(line, 'idle')} loop={_field(line, 'loop')}"))
     # ---- reload exactly once per release
     starts_since_abort = 0
     for e in ev:
@@ -280,7 +288,10 @@ def monitors(case: dict, r: dict, ref: dict | None) -> list[tuple[str, str]]:
     # ---- result equals the uninterrupted run's
     if ref is not None and not busy_aborts and not yielding and not req_lost:
         # (with scheduler-delayed senders the delivery order is the scheduler's, not the plan's: no reference)
-        if (r.get("status"), r.get("result")) != (ref.get("status"), ref.get("result")):
+        def norm(x: Any) -> Any:
+            # with several workers, invocations that end at the same virtual instant append in timer-tie order
+            return sorted(x) if isinstance(x, list) and case["wf"].get("nw", 1) > 1 else x
+        if (r.get("status"), norm(r.get("result"))) != (ref.get("status"), norm(ref.get("result"))):
             out.append(("C36/result_differs_after_reload", f"with idle release: status={r.get('status')} result={r.get('result')}; without: status={ref.get('status')} result={ref.get('result')}"))
     return out
 
